@@ -257,11 +257,11 @@ def body_sorted(ctx, case):
 
 
 def sub_unsorted(ctx):
-    ctx.hyp(case_strategy(), lambda c: body(ctx, c), ctx.n(900, 24000))
+    ctx.hyp(case_strategy(), lambda c: body(ctx, c), ctx.n(2700, 24000))
 
 
 def sub_sorted(ctx):
-    ctx.hyp(sorted_case(), lambda c: body_sorted(ctx, c), ctx.n(400, 10000))
+    ctx.hyp(sorted_case(), lambda c: body_sorted(ctx, c), ctx.n(1200, 10000))
 
 
 SUBCHECKS = [
